@@ -218,6 +218,9 @@ def answer(line, timeout=4):
     fn = OPS.get(f[0])
     if fn is None:
         return "SKIP unknown-op"
+    # pyp0f and every Scapy layer are imported BEFORE the watchdog is armed: on a cold start the import alone can take longer
+    # than an op's work budget, and a Hang raised inside Scapy's layer loader is swallowed there (layers half loaded)
+    P()
     old = signal.signal(signal.SIGALRM, _alarm)
     oldp = signal.signal(signal.SIGPROF, _alarm)
     # The work budget is CPU time of this worker (ITIMER_PROF), so that a loaded machine - other checks,
